@@ -484,8 +484,8 @@ func c01Run(b *core.B) {
 	n := 60000
 	maxD := 3
 	if b.Tier == core.Thorough {
-		n = 2000000
-		maxD = 5
+		n = 8000000
+		maxD = 6
 	}
 	for i := 0; i < n; i++ {
 		idx++
